@@ -8,6 +8,7 @@ import (
 	"time"
 
 	"github.com/btcsuite/btcd/chainhash/v2"
+	"github.com/btcsuite/btcd/txscript/v2"
 	"github.com/btcsuite/btcd/wire/v2"
 
 	"verif/internal/chaingen"
@@ -58,6 +59,8 @@ type WalkStats struct {
 	TxPays, TxSpends        int
 	TxFromGrown             int // relevant only because of an outpoint added by an earlier match
 	TxFromUpdate            int // relevant only because of an Update
+	TxSpendsOpaque          int // delivered spend of a watched OUTPOINT through an input txscript.ComputePkScript cannot recover a script from (statistics only)
+	TxSpendsOpaqueGrown     int // ... where the outpoint was learnt from an earlier payment to a watched address
 	SilentJumps             int
 	RewindsApplied          int
 	AbsentFilterBlocks      int // connected with no txs after GetCFilter answered "not in chain"
@@ -136,6 +139,9 @@ type relTx struct {
 	pays   bool
 	spends bool
 	origin int // strongest reason: 0 initial, >0 update id, -1 grown
+	// statistics only: a watched outpoint is spent through an input from
+	// which the spent script cannot be recovered / one learnt from a match
+	opaque, opaqueGrown bool
 }
 
 // relevant computes, from the generator's block alone, the transactions that
@@ -167,11 +173,26 @@ func relevant(n *chaingen.Node, w *watch) []relTx {
 				if o, ok := w.ops[in.PreviousOutPoint]; ok {
 					r.spends = true
 					minOrigin(o)
+					if _, err := txscript.ComputePkScript(in.SignatureScript, in.Witness); err != nil {
+						r.opaque = true
+						if o == originGrown {
+							r.opaqueGrown = true
+						}
+					}
 				}
 				if pi < len(n.PrevScripts) {
+					// A zero-outpoint watch asks for spends OF A SCRIPT; a
+					// light client has no previous outputs, so such a
+					// spend is defined by what the input itself reveals:
+					// it is due iff the script recoverable from the input
+					// is the spent (watched) one. Outpoint watches above
+					// never depend on this.
 					if o, ok := w.scripts[string(n.PrevScripts[pi])]; ok {
-						r.spends = true
-						minOrigin(o)
+						pk, err := txscript.ComputePkScript(in.SignatureScript, in.Witness)
+						if err == nil && string(pk.Script()) == string(n.PrevScripts[pi]) {
+							r.spends = true
+							minOrigin(o)
+						}
 					}
 				}
 				pi++
@@ -722,6 +743,12 @@ func (k *walker) postStats(p preStat, e Ev) {
 		}
 		if r.spends {
 			k.st.TxSpends++
+		}
+		if r.opaque {
+			k.st.TxSpendsOpaque++
+		}
+		if r.opaqueGrown {
+			k.st.TxSpendsOpaqueGrown++
 		}
 		switch {
 		case r.origin == originGrown:
